@@ -336,10 +336,10 @@ class SymCtx:
     def none_is(self, v):
         return v is None
 
-    def invariant(self, func_key, ordinal, inv, modifies):
+    def invariant(self, func_key, ordinal, inv, modifies=None):
         """registers the inductive invariant of loop #ordinal (source order) of the repo function `func_key`:
         inv(look, k) -> formula, look(name) reads a local of the function; `modifies` = locals assigned in the loop body"""
-        self.world.loop_invariants[(func_key, ordinal)] = dict(inv=inv, modifies=list(modifies))
+        self.world.loop_invariants[(func_key, ordinal)] = dict(inv=inv, modifies=None if modifies is None else list(modifies))
 
     def stub(self, key, fn, note=None):
         self.world.stubs[key] = fn
